@@ -174,6 +174,14 @@ class ThrottleCall(Contract):
             S, n = g["starts"], g["n"]
             st.check("P2:sleeps-only-when-limit-calls-began-in-the-preceding-period",
                      z3.And(n >= self.limit, z3.Select(S, n - self.limit) + self.period > st.clock))
+            # ... and only for as long as that stays true: the requested wait ends no later than the instant the oldest of
+            # the last `limit` starts leaves the (half-open) window - from then on fewer than `limit` calls began in the
+            # preceding period and the call must not be delayed any further (T-SLEEP adds only the loop's own lateness)
+            d = aw.data["delay"]
+            dr = z3.If(V.is_float(d), V.rval(d), z3.ToReal(V.ival(d)))
+            st.check("P2:the-wait-ends-no-later-than-the-instant-fewer-than-limit-calls-began-in-the-preceding-period",
+                     z3.And(z3.Or(V.is_float(d), V.is_int(d)),
+                            st.clock + dr <= z3.Select(S, n - self.limit) + self.period))
             self.slept = True
 
     def interfere(self, it, aw, idx):
